@@ -108,6 +108,10 @@ add("X4_21", p, f"mixed radix 2^4*3^21*{c}+1 (small subgroup of more than 2^32 e
 # top limb exactly 2^63 (the first modulus shape without a spare bit): 2^(64N-1) + c
 for n in (2, 3, 4, 6):
     add(f"Q{n}", nextprime(2**(64 * n - 1)), f"{n} limbs, smallest prime above 2^(64*{n}-1): top limb exactly 2^63, no spare bit")
+# moduli whose low limb(s) are all ones: (p-1)/2 + 1 and p + 1 carry across limbs
+add("NistP256", 2**256 - 2**224 + 2**192 + 2**96 - 1, "NIST P-256 base: low 96 bits all ones, no spare bit")
+add("C448", 2**448 - 2**224 - 1, "curve448 base: low 224 bits all ones, no spare bit")
+add("M521", 2**521 - 1, "mersenne 521: all ones, 9 limbs")
 add("Bls381Fq", 4002409555221667393417789825735904156556882819939007885332058136124031650490837864442687629129015664037894272559787, "bls12-381 fq")
 add("Secp384r1", 2**384 - 2**128 - 2**96 + 2**32 - 1, "secp384r1 base, no spare")
 
